@@ -9,10 +9,13 @@ specification (gql family), and the document passes `validate` (Model/Core/GqlVa
 specification).  The oracle evaluates exactly this on every file the real compiler writes, with node's
 evaluation of the module in place of `jsValue` (and compares the two).
 
-False on the unchanged tree; one witness per excluded class, each the text the REAL compiler wrote for
-an accepted program (corpus/C09/witnesses.txt).  What is proved for all inputs: the JavaScript level
-(`C09_js_embedding`), mergeability from distinct response names (`C09_distinct_keys_merge`), declared =
-used variables (`C09_declared_eq_used`), and the composition `C09_valid_partial`.
+False on the unchanged tree.  Repaired and re-proved: the embedding (F13, dc59a0f), variables inside
+object arguments (F12/F12b, af3b32d), non-null list variables (e06371c), variables below client
+pointers (31b992f) — each with the text the REAL compiler wrote before and after.  Still open: the
+response aliases (F11), shown by witnesses.  Proved for all inputs: the JavaScript level
+(`C09_js_embedding`: EVERY printable text, apostrophes and backslashes included, comes back from the
+module unchanged), mergeability from distinct response names (`C09_distinct_keys_merge`), declared =
+used variables for every merged map (`C09_declared_eq_used`), and the composition `C09_valid_partial`.
 -/
 import IsoVerif.Lemmas.OpsWitness
 import IsoVerif.Lemmas.OpsJs
@@ -25,21 +28,39 @@ open IsoVerif.Core IsoVerif.Ops IsoVerif.GqlValid
 def C09_holds_at (schema : VSchema) (file : Str) : Prop :=
   ∃ text doc, jsValue file = some text ∧ parseDoc text = some doc ∧ Valid schema doc = true
 
-/-- the property: it holds at every file the compiler writes for an accepted program; the files below
-are such files (each is replayed against the real compiler on every run) -/
+/-- the property: it holds at every file the compiler writes for an accepted program; the two files
+below are such files (each is replayed against the real compiler on every run) -/
 def C09_statement : Prop :=
-  ∀ file ∈ [Witness.plainFile, Witness.f13File], C09_holds_at Witness.schema file
+  ∀ file ∈ [Witness.plainFile, Ops.queryTextFile Witness.f11NegPretty], C09_holds_at Witness.schema file
 
 /-! ### witnesses (texts printed by the real compiler for accepted programs) -/
 
-/-- F13: `user(name: "it's")` — the module is not JavaScript -/
-theorem C09_witness_apostrophe : ¬ C09_holds_at Witness.schema Witness.f13File := by
-  rintro ⟨text, doc, h, _⟩
-  rw [Witness.f13_not_javascript] at h
+/-- F11: `user(n: -5)` — the module is JavaScript, but the alias `user____n___l_-5` is not a Name and
+the text does not parse -/
+theorem C09_witness_negative_int_alias : ¬ C09_holds_at Witness.schema (Ops.queryTextFile Witness.f11NegPretty) := by
+  rintro ⟨text, doc, h, hp, _⟩
+  rw [Witness.f11neg_javascript] at h
   cases h
+  have := Witness.f11neg_unparsed
+  simp [Witness.check, hp] at this
 
 theorem C09_statement_false : ¬ C09_statement := fun h =>
-  C09_witness_apostrophe (h Witness.f13File (by simp))
+  C09_witness_negative_int_alias (h _ (by simp))
+
+/-- F13, repaired by dc59a0f: `user(name: "it's")` used to be embedded verbatim — not JavaScript; the
+file written now evaluates to the operation, which is valid -/
+theorem C09_fixed_apostrophe :
+    jsValue Witness.f13File = none ∧
+    Witness.f13File = exportDefault ++ Witness.f13Pretty ++ cs!"';" ∧
+    C09_holds_at Witness.schema (Ops.queryTextFile Witness.f13Pretty) := by
+  refine ⟨Witness.f13_not_javascript, Witness.f13_before_is_unescaped, ?_⟩
+  have hv := Witness.f13_repaired_valid
+  unfold Witness.check at hv
+  cases hp : parseDoc cs!"query Home {  user____name___s_it_s: user(name: \"it's\") {    id,    name,  },}" with
+  | none => simp [hp] at hv
+  | some doc =>
+    simp [hp] at hv
+    exact ⟨_, doc, Witness.f13_repaired_javascript, hp, hv⟩
 
 /-- F12, repaired by af3b32d: `user(filter: { id: $id })` used to be printed without declaring `$id`;
 the operation printed now declares it -/
@@ -52,10 +73,6 @@ replaced by `$uid` (an `ID` at a `UserFilter` position); now the object is kept 
 theorem C09_fixed_object_replaced_by_variable :
     Witness.check Witness.f12bText = some false ∧ Witness.check Witness.f12bRepaired = some true :=
   ⟨Witness.f12b_invalid, Witness.f12b_repaired_valid⟩
-
-/-- F11: `user(n: -5)` — the alias `user____n___l_-5` is not a Name; the text does not parse -/
-theorem C09_witness_negative_int_alias : Witness.check Witness.f11NegText = none :=
-  Witness.f11neg_unparsed
 
 /-- F11: `"a b"` and `"a_b"` collapse to one response name: FieldsInSetCanMerge fails -/
 theorem C09_witness_alias_collision : Witness.check Witness.f11CollideText = some false :=
@@ -76,14 +93,21 @@ theorem C09_plain_valid : Witness.check Witness.plainText = some true := Witness
 
 /-! ### what holds for every input -/
 
-/-- JavaScript level: for every text without apostrophe, carriage return or stray backslash / line
-feed (every backslash starts one of the printer's backslash+LF continuations), the module
-`export default '<text>';` evaluates to the text with the continuations removed -/
-theorem C09_js_embedding (t : Str) (h : safeEmbedded t = true) :
+/-- JavaScript level: for EVERY text the printer can produce (any characters of the Basic Multilingual
+Plane, apostrophes and backslashes included; line feeds only as the printer's backslash+LF
+continuations; no carriage return), the file the compiler writes (`queryTextFile`: `export default '`
+++ the text with `'` and `\` escaped ++ `';`) evaluates to the text with the continuations removed -/
+theorem C09_js_embedding (t : Str) (h : embeddable t = true) :
+    jsValue (Ops.queryTextFile t) = some (dropContinuations t) :=
+  jsValue_queryTextFile t h
+
+example : embeddable cs!"query Q {\\\n  user(name: \"it's\") {\\\n    id,\\\n  },\\\n}" = true := by decide
+
+/-- before dc59a0f the text was embedded as is; that was right exactly for texts without apostrophe
+or stray backslash -/
+theorem C09_js_embedding_before_repair (t : Str) (h : safeEmbedded t = true) :
     jsValue (exportDefault ++ t ++ cs!"';") = some (dropContinuations t) :=
   jsValue_embed t h
-
-example : safeEmbedded cs!"query Home {\\\n  me {\\\n    id,\\\n  },\\\n}" = true := by decide
 
 /-- response names: a selection set whose fields have pairwise distinct response names passes
 FieldsInSetCanMerge — for every schema, whatever the fields are -/
@@ -110,13 +134,15 @@ theorem C09_fixed_nested_variable_not_collected :
     Vars.printedMap Vars.f12Map = Vars.reachableMap Vars.f12Map :=
   ⟨Vars.f12_printed_ne_reachableOld, Vars.printed_eq_reachable _⟩
 
-/-- composition: for a text inside the JavaScript envelope the property reduces to the GraphQL level —
-the parse and validation of the text with the continuations removed -/
+/-- composition: for every printable text the property reduces to the GraphQL level — the parse and
+validation of the operation text itself -/
 theorem C09_valid_partial (schema : VSchema) (t : Str) (doc : List Gql.ExecDef)
-    (hsafe : safeEmbedded t = true)
+    (hsafe : embeddable t = true)
     (hparse : parseDoc (dropContinuations t) = some doc)
     (hvalid : Valid schema doc = true) :
-    C09_holds_at schema (exportDefault ++ t ++ cs!"';") :=
-  ⟨dropContinuations t, doc, jsValue_embed t hsafe, hparse, hvalid⟩
+    C09_holds_at schema (Ops.queryTextFile t) :=
+  ⟨dropContinuations t, doc, jsValue_queryTextFile t hsafe, hparse, hvalid⟩
+
+example : C09_holds_at Witness.schema (Ops.queryTextFile Witness.f13Pretty) := C09_fixed_apostrophe.2.2
 
 end IsoVerif.Props.C09
